@@ -35,10 +35,13 @@ PARTIAL = ('proved at program level (parser trees inside the writer domain of C0
            'white space, no double blank line in the whole luafmt output), C10_indent_counter_partial (a code token that begins a '
            'line is preceded by exactly indentwidth x n spaces, n >= 0 the writer nesting counter at its white-space run), C10_first_line '
            '(what begins the first line of the output sits at column 0), '
-           'C10_indent_link (n = the reference depth token_depth of Spec/TokenDepth.v at the token the run ends at) and C10_indent '
+           'C10_indent_link (n = the reference depth token_depth of Spec/TokenDepth.v at the token the run ends at, for every run that '
+           'holds a newline token - the only runs after which a token can begin a line: C10_line_start_needs_newline) and C10_indent '
            '(a token that begins a line is preceded by exactly indentwidth x token_depth spaces) - the last two for trees without a '
-           'one-line if that has an else part and without a trailing table field separator (the counter is known to differ there; '
-           'C10_indent_trailing_sep_refuted); token_depth is a function of the INPUT token list (the rules of Spec/FmtShape.v restated '
+           'trailing table field separator (the counter is known to differ there; C10_indent_trailing_sep_refuted) and token lists whose '
+           'space / comment tokens do not end a line (trivia_tidy, true of the lexer, observed on every run); a one-line if with an else '
+           'part is no exclusion any more (the counter differs from the reference depth only inside its line); token_depth is a function '
+           'of the INPUT token list (the rules of Spec/FmtShape.v restated '
            'on lexer tokens, agreement lemmas tok_depth_at_agrees / tok_depth_after_agrees) - that re-reading the OUTPUT text gives the '
            'same tokens and hence the same depth is observed by the monitor, not proved; NOT proved: '
            're-indentation invariance and idempotence of whole programs (need the lexer on re-indented / written text); proved and '
@@ -48,7 +51,7 @@ ASSUMPTIONS = ['indentwidth is an integer (0-8 in the monitor domain); programs 
                'interior lines of multi-line block comments and long strings are token content, not layout: re-indentations leave them alone',
                'blank lines before the first line of the file are not "separating lines" (the output may start with up to two)']
 CLAIM = dict(
-    text=("Twenty theorems in Properties/C10.v (Coq, closed under the global context) about fmt_run, the model of the 15-step re.sub "
+    text=("The theorems of Properties/C10.v (Coq, closed under the global context) about fmt_run, the model of the 15-step re.sub "
           "pipeline of LuaFormatterWriter._get_code_for_spaces, for white-space/comment runs of EVERY length, every indent width and "
           "depth, at the start / middle / end of the file: C10_run_canonical_form (exact line-by-line form of the output), "
           "C10_run_depends_on_norm (runs equal modulo blanks at line edges are formatted identically: re-indentation invariance "
@@ -64,12 +67,16 @@ CLAIM = dict(
           "by exactly indentwidth x n spaces, n >= 0 the nesting counter at its white-space run), obtained by discharging the "
           "hypotheses separated / codes_ok / no_end of the chunk theorems from the alignment proof (Proofs/AstWriterLines.v), likewise "
           "C10_first_line (a prefix of the output that is blanks only, without a line feed, is empty); and, for trees "
-          "without a one-line if with an else part and without a trailing table field separator, C10_indent_link (every non-empty "
-          "white-space run handed to _get_code_for_spaces ends at a significant token i and is passed _indent = token_depth ts i, the "
+          "without a trailing table field separator, C10_indent_link (every non-empty "
+          "white-space run handed to _get_code_for_spaces ends at a significant token i and, if it holds a newline token, is passed "
+          "_indent = token_depth ts i, the "
           "number of blocks and brackets open at token i of the input by the reference rules of Spec/FmtShape.v restated on lexer tokens "
-          "in Spec/TokenDepth.v) and C10_indent (a code token i that begins a line of the output is preceded by exactly indentwidth x "
+          "in Spec/TokenDepth.v; one-line ifs with an else part included: what follows the condition of a one-line if holds no newline "
+          "token - the parser's fence), C10_line_start_needs_newline (a run of tokens that do not end a line whose formatted text ends "
+          "in line feed + blanks holds a newline token) and C10_indent (token lists whose space / comment tokens do not end a line, "
+          "trivia_tidy: a code token i that begins a line of the output is preceded by exactly indentwidth x "
           "token_depth ts i spaces); proved by re-running the walk induction with the counter and the token-stream depth state threaded "
-          "(Proofs/TokenDepthProofs.v, WriterCursorD.v, AstWriterDepth.v). Regex sources, guards, replacement expressions, order, and the whole function text "
+          "(Proofs/TokenDepthProofs.v, WriterCursorD.v, AstWriterDepth.v, FmtLineEnd.v). Regex sources, guards, replacement expressions, order, and the whole function text "
           "are regenerated from lua.py on every run and pinned. Tie: the extracted model equals the real method on ALL runs of length "
           "<= 5 (thorough 6) over {space,tab,\\n,\\r,-,/,a} x 4 positions x 3 (width,depth), on random long runs, and on every "
           "_get_code_for_spaces call made inside real luafmt runs on generated programs; the extracted holds_C10 (reference reader "
@@ -77,7 +84,7 @@ CLAIM = dict(
           "widths 0-8: outputs equal, fmt(fmt)=fmt, indentation = width x depth on every code line, no trailing white space, no "
           "double blank line, no blank line at the end."),
     note=("PARTIAL: indentation = width x syntactic depth is proved (C10_indent) with the depth computed on the INPUT tokens, outside "
-          "two exclusions (a one-line if with an else part anywhere in the program; a trailing table field separator - there the "
+          "one exclusion (a trailing table field separator - there the "
           "statement is false: `x={1 / ,}` is written with the comma at column 0, C10_indent_trailing_sep_refuted, same on the real "
           "luafmt); that the depth read back from the OUTPUT text is the same, re-indentation invariance and idempotence of whole "
           "programs are OBSERVED by the extracted monitor on real output, not proved: they need the lexer on re-indented / written "
@@ -441,7 +448,9 @@ def _chunk_hypotheses(tokens, order):
     """the hypotheses of C10_indent_partial / C10_shape_partial observed on a real run: -> None | what fails
     separated: two non-empty white-space runs are never consumed without a code token between them;
     no_end: a run that reaches the end of the token list is the last one; codes_ok: a code token's text is not
-    empty, does not begin with a line feed, does not end in a blank or a line feed"""
+    empty, does not begin with a line feed, does not end in a blank or a line feed; trivia_tidy (C10_indent): a space or
+    comment token does not end a line - no CR / LF byte of its code is followed by blanks only up to the end of the code"""
+    import re
     from pico8.lua import lexer
     prev_end = None
     for k, (a, b) in enumerate(order):
@@ -452,6 +461,8 @@ def _chunk_hypotheses(tokens, order):
         prev_end = b
     for t in tokens:
         if isinstance(t, (lexer.TokSpace, lexer.TokNewline, lexer.TokComment)):
+            if not isinstance(t, lexer.TokNewline) and re.search(br'[\r\n][ \t]*\Z', bytes(t.code)):
+                return 'trivia_tidy: token code %r' % bytes(t.code)[-20:]
             continue
         c = bytes(t.code)
         if not c or c[0] == 10 or c[-1] in (32, 10):
@@ -840,7 +851,7 @@ def run_cases(cases, ctx):
                 hyp = [p[1] for p in o['link'] if p[0] == 'hyp']
                 o['link'] = [p for p in o['link'] if p[0] != 'hyp']
                 for h in hyp:
-                    bump('chunk-hypotheses(separated,no_end,codes_ok):' + ('hold' if h is None else 'FAIL ' + h))
+                    bump('chunk-hypotheses(separated,no_end,codes_ok,trivia_tidy):' + ('hold' if h is None else 'FAIL ' + h))
                     if h is not None and not any(d.get('summary', {}).get('kind') == 'hyp' for d in disagreements):
                         disagreements.append({'case': c, 'summary': {'kind': 'hyp'},
                                               'difference': 'a hypothesis of C10_indent_partial fails on a real luafmt run: ' + h})
